@@ -10,6 +10,8 @@ checks={
         "21 decoders, DecodeFileSR, Info/Encode of decoded trees, File.AddChild and the ISM options are outside the claim (listed in the evidence); boxes other than mdat < 4 GiB; registry unmodified; child type follows from its name (assumed at 3 type assertions).", TECH),
  "C16":("proof","Deductive proof of panic-freedom (index, slice, nil, division, make, shift, type assertion, devirtualisation) and termination (loop variants, bounded by the abstract finite reader) for 330+ functions of avc, hevc, sei, aac, av1 and the bit readers, for every input byte string; loop invariants by Houdini over templates plus written ones; 30 genuine defects found this way were repaired by fix: commits and are now proved absent.",
         "Functions listed under not_decided in the evidence (22 hevc parsers, 4 avc/hevc scanners, writers) are outside the claim; heap/time budgets are covered only through termination measures, allocation bounds are not generated; samples < 4 GiB; maps without nil pointers.", TECH),
+ "C03":("proof","Encoder half: for every type with both Encode(io.Writer) and EncodeSW(SliceWriter), either both methods are proved against the same trace specification (one schema clause applied to both: containers, dref, stsd, trep, meta, moof, init segment, fragment, media segment, file in both modes) or Encode is proved to be the canonical wrapper handing exactly the bytes EncodeSW produced to the writer (76 types); traces are ghost state of the writers, loops by invariant over recursive trace functions. The two decoder registries have identical key sets and pair each decoder with its SR twin. mdat is specified identically on the reader, slice-reader and lazy decode paths.",
+        "Equal traces are read as equal bytes (trace model, definitional clauses listed in the evidence); pre-encode mutations are the same statements in both encoders but their equal effect is argued, not proved; decoder-path equivalence for boxes other than mdat and error-case agreement are not decided; 15 types pending (excluded, listed).", TECH),
  "C20":("other","Whole-library frame obligations computed from the SSA of every function: (F1) no store to package-level state outside init and the two registry mutators, (F2) no exported function writes through a []byte parameter except the documented in-place transformers. These are the sufficient conditions the property names; schedules themselves are not quantified over.",
         "Race freedom is argued from disjoint footprints; interprocedural flows of pointers into globals through return values are not followed; stdlib/runtime trusted.", "frame (write-set) analysis over go/ssa; no schedule exploration"),
 }
